@@ -57,7 +57,8 @@ inline sfut sf_make(int path, cocls::promise<tracked> &out, int resolve_now_kind
     switch (path) {
     case 0: return sfut([&](cocls::promise<tracked> p) { out = std::move(p); });
     case 1: return sfut([&]() -> cocls::future<tracked> { return cocls::future<tracked>([&](cocls::promise<tracked> p) { out = std::move(p); }); });
-    default: { sfut f; out = f.get_promise(); return f; } // default constructed, initialised later
+    case 2: { sfut f; out = f.get_promise(); return f; } // default constructed, initialised later
+    default: { sfut f; f.init_if_needed(); sfut c = f; out = c.get_promise(); return f; } // initialised explicitly, promise taken through a copy
     }
 }
 
@@ -66,7 +67,7 @@ inline void shared_future_history(const vf::opts &o, vf::report &R, uint64_t his
     vf::rng master(vf::mix(o.seed, 0x17));
     for (uint64_t hn = 0; hn < histories && R.nviol() < 5; hn++) {
         vf::rng r(master.next());
-        int path = (int)r.below(3), kind = (int)r.below(3);
+        int path = (int)r.below(4), kind = (int)r.below(3);
         uint64_t id = 5000 + hn % 1000;
         std::string trace = "make" + std::to_string(path) + " ";
         vf::set_crash_ctx(R.prop.c_str(), "shared_future_history", o.seed, hn, trace.c_str());
@@ -87,7 +88,7 @@ inline void shared_future_history(const vf::opts &o, vf::report &R, uint64_t his
                 for (int step = 0; step <= len && err.empty(); step++) {
                     if (step == resolve_at && !resolved) { trace += "resolve" + std::to_string(kind) + " "; sf_resolve(prom, kind, id); resolved = true; }
                     if (step == len) break;
-                    uint32_t x = r.below(10);
+                    uint32_t x = r.below(11);
                     size_t live_handles = 0; for (auto &h : handles) if (h) live_handles++;
                     if (live_handles == 0) continue;
                     size_t hi; do { hi = r.below((uint32_t)handles.size()); } while (!handles[hi]);
@@ -99,6 +100,7 @@ inline void shared_future_history(const vf::opts &o, vf::report &R, uint64_t his
                         else sf_waiter(*handles[hi], obs.back()).detach();
                     }
                     else if (x < 8) { trace += "drop "; handles[hi].reset(); }
+                    else if (x == 10) { trace += "init_if_needed "; handles[hi]->init_if_needed(); } // documented: does nothing on an initialised handle
                     else if (resolved) {
                         trace += (x == 8 ? "wait " : "poll ");
                         obs.emplace_back();
